@@ -25,8 +25,11 @@ package dawn
 // skipped rather than reported) turns a target that must run again into one that is silently up to date.  Every corruption
 // family is therefore applied to both states of every record: "clean" and "marked" (kinds marked-*; the marked record is the
 // clean record as saveTargetInfo writes it with the marker set; uncorrupted, it must make the target run: kind marked-none).
-// Up to date is legitimate only when an independent strict decoding of the corrupted bytes (c15recordRef: encoding/json,
-// every error is an error) is a record with the marker clear, the current stamp and the current dependency stamps.
+// Up to date is legitimate only when an independent strict decoding of the corrupted bytes (c15recordRef: the file is exactly
+// one JSON object with the record's keys -- unknown keys, data after the object and every decoding error are errors) is a
+// record with the marker clear, the current stamp and the current dependency stamps (class uptodate-valid-unmarked-record when
+// the state before the corruption carried the marker: a corruption into a genuinely valid record, undetectable without a
+// checksum, accepted and counted).
 //
 // Corruption families beyond single bytes: "structure" (every byte outside the interior of the long strings deleted /
 // replaced by JSON punctuation and literals' letters), "retype" (the file stays well-formed JSON, but a field's value changes
@@ -290,8 +293,14 @@ func c15sameRecord(trueRec, gotRec []byte) (same bool, why string) {
 	if err := json.NewDecoder(bytes.NewReader(trueRec)).Decode(&want); err != nil {
 		return false, "true record unreadable"
 	}
-	if err := json.NewDecoder(bytes.NewReader(gotRec)).Decode(&got); err != nil {
+	// strictly: the file is exactly one JSON object with the record's keys; every decoding error is an error
+	dec := json.NewDecoder(bytes.NewReader(gotRec))
+	dec.DisallowUnknownFields()
+	if err := dec.Decode(&got); err != nil {
 		return false, "not a record: " + err.Error()
+	}
+	if _, err := dec.Token(); err != io.EOF {
+		return false, "not a record: data after the first JSON value"
 	}
 	if got.Rerun {
 		return false, "rerun set"
@@ -311,21 +320,6 @@ func c15sameRecord(trueRec, gotRec []byte) (same bool, why string) {
 		return false, "stamp bytes differ from the current stamp"
 	}
 	return true, ""
-}
-
-// c15laxOnly: why a byte string that decodes as a record is not, strictly, one record ("" when it is): the file must be
-// exactly one JSON object with the record's keys.
-func c15laxOnly(rec []byte) string {
-	dec := json.NewDecoder(bytes.NewReader(rec))
-	dec.DisallowUnknownFields()
-	var r c15recordRef
-	if err := dec.Decode(&r); err != nil {
-		return "unknown-key"
-	}
-	if _, err := dec.Token(); err != io.EOF {
-		return "trailing-data"
-	}
-	return ""
 }
 
 // ---- the stamp's source: base64 text with a damaged character
@@ -1150,13 +1144,9 @@ func TestVerifC15Record(t *testing.T) {
 					if same {
 						class = "uptodate-same-record"
 						if strings.HasPrefix(j.c.kind, "marked-") || strings.Contains(j.c.detail, "marked") {
-							// the state before the corruption demanded a re-run; the corrupted bytes still decode to a
-							// record that does not: either they are exactly such a record, or they are one only to a
-							// decoder that ignores unknown keys and whatever follows the first JSON value
+							// the state before the corruption demanded a re-run, but the corrupted bytes are, strictly, a
+							// current record without the marker: no loader can tell (accepted, counted)
 							class = "uptodate-valid-unmarked-record"
-							if lax := c15laxOnly(j.c.data); lax != "" {
-								class = "uptodate-marker-lost-" + lax
-							}
 						}
 					} else {
 						class, why = "uptodate-different-record", w
